@@ -10,6 +10,12 @@ CLAIMED = {
  "C06": dict(text="The solver's connective code is extracted from the typed tree and evaluated as a model whose operands are oracle symbols over {true,false,missing}; every form x arity 1..4 (5 thorough) x operand vector x threshold is enumerated against the property's truth tables. Decides how results are combined, not what a leaf predicate returns.",
              note="Model language is fail-closed (unknown constructs are reported). Soft rows (false-vs-missing of a failed all/of) pinned to current behaviour. Leaves are oracles (C07/C09/C10 own them).",
              tech="static analysis: syntax-directed extraction of connective regions + exhaustive evaluation of the extracted model over a 3-point lattice", ref="3.3, 4/C06"),
+ "C09": dict(text="The finite numeric tables of the solver are extracted and compared arm by arm with the specification: the 31-arm comparison table (Rust operator named by the BoolSym, operands in order, mixed signed/unsigned arms guarded by `u <= i64::MAX as u64` and casting exactly the unsigned operand, one `=> false` catch-all per operator), the operand-extraction blocks (absent => Missing, inconvertible => False, strings parsed at the cast's own type), every numeric `as` cast classified lossless / precision-only / constant / range-guarded, left/right sibling blocks equal, numeric pattern syntax. With primitive operators trusted this decides the comparison step over the whole 64-bit/double range.",
+             note="Does not decide std's str::parse or float formatting; a UInt above i64::MAX against an Int constant is read as 'every comparison false'.",
+             tech="static analysis: arm-table extraction from THIR vs spec table, cast classification with dominating-guard search, sibling (left/right) agreement", ref="4/C09"),
+ "C12": dict(text="Effect analysis over the whole type-checked crate: no unsafe, no static mut, statics only from tracing/lazy_static expansions, no interior mutability or thread-locals in own types, no ambient-input calls, matching takes the rule by shared reference, every hash-container iteration in engine code is collected into a map/set or folded commutatively, and (configuration diff) the sync feature changes only trait bounds. Absence of these constructs covers every schedule, history and process at once.",
+             note="Trusts regex/aho-corasick internal caches and tracing to be observationally pure; user Document impls are pure.",
+             tech="static analysis: effect / purity lint over THIR + item tables, hash-iteration dataflow rule, two-configuration body diff", ref="4/C12"),
 }
 PENDING = {}
 props = [json.loads(l) for l in open(os.path.join(V, "properties.jsonl"))]
